@@ -330,8 +330,11 @@ class GWCSAPIMixin(BaseHighLevelWCS, BaseLowLevelWCS):
         Convert world coordinates (represented by Astropy objects) to array
         indices.
         """
-        result = self.invert(*world_objects, with_units=True)[::-1]
-        return tuple([utils._toindex(r) for r in result])
+        result = self.invert(*world_objects, with_units=True)
+        if self.pixel_n_dim != 1:
+            result = result[::-1]
+            return tuple([utils._toindex(r) for r in result])
+        return utils._toindex(result)
 
     @property
     def pixel_axis_names(self):
